@@ -1,19 +1,9 @@
 //! vrf: property-based verification harness for typify (see /verif/DESIGN.md).
-mod analyse;
-mod case;
-mod compile;
-mod engine;
-mod gen;
-mod ingest;
-mod pool;
-mod props;
-mod py;
-mod shrink;
-
+use vrf::{compile, engine, fuzzing, ingest, pool, props};
 use engine::{Property, Tier};
 
 fn usage() -> ! {
-    eprintln!("usage: vrf check <ID> <quick|thorough> | vrf replay <ID> <file> | vrf worker <ID> | vrf warm");
+    eprintln!("usage: vrf check <ID> <quick|thorough> | vrf replay <ID> <file> | vrf worker <ID> | vrf fuzz-decode <ID> <dir> <out.jsonl> [max] | vrf warm");
     std::process::exit(2)
 }
 
@@ -47,6 +37,19 @@ fn main() {
             ingest::install_panic_hook_verbose();
             let code = engine::run_check(prop.as_ref(), tier);
             std::process::exit(code);
+        }
+        "fuzz-decode" => {
+            let prop = props::lookup(args.get(2).map(|s| s.as_str()).unwrap_or("")).unwrap_or_else(|| usage());
+            let (Some(dir), Some(out)) = (args.get(3), args.get(4)) else { usage() };
+            let max = args.get(5).and_then(|s| s.parse().ok()).unwrap_or(usize::MAX);
+            ingest::install_panic_hook();
+            match fuzzing::decode_dir(prop.as_ref(), dir, out, max) {
+                Ok(n) => println!("decoded {n} cases"),
+                Err(e) => {
+                    eprintln!("INFRA: {e}");
+                    std::process::exit(2);
+                }
+            }
         }
         "replay" => {
             let prop = props::lookup(args.get(2).map(|s| s.as_str()).unwrap_or("")).unwrap_or_else(|| usage());
